@@ -103,34 +103,6 @@ func TestD5BitsetRegrow(t *testing.T) {
 	}
 }
 
-func TestD6DHPReset(t *testing.T) {
-	cfg := DHPConfig{BufferSize: 64, WindowSize: 64, BlockSize: 64, InputLen1: 2, InputLen2: 3, HashBits1: 4, HashBits2: 4}
-	run := func(p Parser) Block {
-		if err := p.Reset([]byte("XXabcabc")); err != nil {
-			t.Fatal(err)
-		}
-		var blk Block
-		if _, err := p.Parse(&blk, 0); err != nil {
-			t.Fatal(err)
-		}
-		return blk
-	}
-	used, _ := cfg.NewParser()
-	used.Write([]byte("ZZXXXXXXXXXXXXXXXXXXXXXX"))
-	var tmp Block
-	used.Parse(&tmp, 0)
-	fresh, _ := cfg.NewParser()
-	a, b := run(used), run(fresh)
-	if len(a.Sequences) != len(b.Sequences) || !bytes.Equal(a.Literals, b.Literals) {
-		t.Fatalf("reset parser differs from fresh parser: %+v vs %+v", a, b)
-	}
-	for i := range a.Sequences {
-		if a.Sequences[i] != b.Sequences[i] {
-			t.Fatalf("reset parser differs from fresh parser: %+v vs %+v", a, b)
-		}
-	}
-}
-
 func zzCost(blk *Block) uint64 {
 	c := 9 * uint64(len(blk.Literals))
 	for _, s := range blk.Sequences {
